@@ -141,9 +141,38 @@ def dispatchH : Handler := fun j => do
 def typedH : Handler := fun j => do
   return Json.bool (kernelTyped (← kernelOfJson (← field j "kernel")) (← listOf nat (← field j "tys")))
 
+def mopOfJson (j : Json) : Except String MOp := do
+  match (← arr j).toList with
+  | [t, k, a, tys, w] =>
+    if (← str t) == "k" then
+      return .kern (← kernelOfJson k) (← listOf refOfJson a) (← listOf nat tys) (← nat w)
+    else throw "bad mixed op"
+  | _ => return .arith (← opOfJson j)
+
+def mopToJson : MOp → Json
+  | .arith o => opToJson o
+  | .kern k a tys w => Json.arr #["k", Json.str (kernelName k), jList refToJson a, jList jNat tys, jNat w]
+
+def mbodyOfJson (j : Json) : Except String MBody := do
+  return ⟨← listOf nat (← field j "args"), ← listOf mopOfJson (← field j "ops"), ← listOf refOfJson (← field j "ret")⟩
+
+def mbodyToJson (b : MBody) : Json :=
+  Json.mkObj [("args", jList jNat b.args), ("ops", jList mopToJson b.ops), ("ret", jList refToJson b.ret)]
+
+/-- {"mbody"} -> {"fired": bool, "out": mixed body after LowerLinalgBody} -/
+def lowerH : Handler := fun j => do
+  let b ← mbodyOfJson (← field j "mbody")
+  return Json.mkObj [("fired", Json.bool (lowerLinalgBody b).isSome), ("out", mbodyToJson (lowerResult b))]
+
+/-- {"mbody", "ins"} -> per input list: meaning of the mixed body -/
+def mevalH : Handler := fun j => do
+  let b ← mbodyOfJson (← field j "mbody")
+  let inss ← listOf (listOf valOfJson) (← field j "ins")
+  return jList (fun ins => jOpt (jList valToJson) (evalMBody b ins)) inss
+
 def handlers : List (String × Handler) :=
   [("c18.recognize", recognizeH), ("c18.eval", evalH), ("c18.keval", kevalH), ("c18.expand", expandH),
    ("c18.rescale_body", rescaleBodyH), ("c18.rescale_eval", rescaleEvalH), ("c18.dispatch", dispatchH),
-   ("c18.typed", typedH)]
+   ("c18.typed", typedH), ("c18.lower", lowerH), ("c18.meval", mevalH)]
 
 end SnaxVerif.Drv.C18
